@@ -17,7 +17,8 @@ oracle(): the properties themselves on the real loader, no Lean:
             1  status codes of a parsed operation = keys of its `responses` mapping, in order
             3  `stream` iff a lower-cased media type is in STREAM_FORMATS (table read with `ast`) or a content schema has
                format binary; the flag is the same for every permutation of the content mapping
-            5  parameters = path-level ones then operation-level ones, in order, none merged
+            5  parameters = the path-level ones no operation-level parameter overrides (same name and `in`), then the
+               operation-level ones, in order (F4 repaired); no (name, in) twice when neither declared list has one twice
           and, as EXPECTED defect classes (counterexample theorems):
             LOADER-STREAM-FORMAT-ORDER      `stream_format` depends on the order of the content mapping
             LOADER-PROMO-NAME-COLLISION     two different inline schemas of one operation are requested under one name
@@ -43,6 +44,8 @@ DEFAULT_DRIVER = os.path.join(HERE, ".lake", "build", "bin", "driver")
 
 RULE = (
     "one-operation documents: operationId from a pool (rarely '' = a derived id), 0-2 path-level and 0-3 operation-level parameters "
+    "(in 45% of the documents with path-level parameters one of them is repeated at operation level: same name and `in`, the "
+    "default location written on one side only, a key that is only `==` (True / 1), the same `$ref`, or a near miss in another location) "
     "(inline with str / odd / missing names, `in`, `required` of several truthinesses, schemas from a pool with inline "
     "objects, compositions, `$ref`, string-enum arrays with list / str / wrong-typed enums, empty and non-mapping schemas; "
     "`$ref` to components.parameters entries that are nodes, falsy, non-mappings or missing; non-mapping nodes), an optional "
@@ -245,17 +248,28 @@ def _real(case: dict) -> dict:
         state["snap"] = [(_bits(e[4]) if e[0] == "parse" and e[4] is not None else None) for e in log]
         return real_pp(op, context)
 
-    saved = (pam._parse_schema, rbm._parse_schema, rsm._parse_schema, opp.post_process_operation)
+    param_calls: list = []      # (IRParameter returned, index of its first `_parse_schema` call among the "param" calls, index after its last)
+
+    def pp_param_spy(real):
+        def w(*a, **k):
+            start = sum(1 for e in log if e[0] == "parse" and e[1] == "param")
+            res_ = real(*a, **k)
+            param_calls.append((res_, start, sum(1 for e in log if e[0] == "parse" and e[1] == "param")))
+            return res_
+        return w
+
+    saved = (pam._parse_schema, rbm._parse_schema, rsm._parse_schema, opp.post_process_operation, opp.parse_parameter)
     try:
         pam._parse_schema = spy("param", saved[0])
         rbm._parse_schema = spy("rb", saved[1])
         rsm._parse_schema = spy("resp", saved[2])
         opp.post_process_operation = pp_spy
+        opp.parse_parameter = pp_param_spy(saved[4])
         with warnings.catch_warnings(record=True) as ws:
             warnings.simplefilter("always")
             ops = opp.parse_operations(paths, comps["parameters"], comps["responses"], comps["requestBodies"], ctx)
     finally:
-        pam._parse_schema, rbm._parse_schema, rsm._parse_schema, opp.post_process_operation = saved
+        pam._parse_schema, rbm._parse_schema, rsm._parse_schema, opp.post_process_operation, opp.parse_parameter = saved
     msgs = [str(w.message) for w in ws if str(w.message).startswith("Skipping operation parsing for ")]
 
     # the oracle table: what each request returned (bits as the post-processor saw them; `binary` never changes)
@@ -306,9 +320,20 @@ def _real(case: dict) -> dict:
             return [e[2], e[3]]
         return None
 
+    def take_param(p):
+        # the `_parse_schema` call made by the `parse_parameter` call that RETURNED this very IRParameter (the calls made for a
+        # path-level parameter that an operation-level one overrides have no parameter in the result; they stay in `events`)
+        for obj, start, end in param_calls:
+            if obj is p:
+                if end > start and by_tag["param"][start][4] is p.schema:
+                    e = by_tag["param"][start]
+                    return [e[2], e[3]]
+                return None
+        return None
+
     params = []
     for p in op.parameters:
-        req = take("param", p.schema)
+        req = take_param(p)
         if req is not None:
             sch = {"kind": "parsed", "req": req}
         elif p.schema.type == "array" and p.schema.items is not None:
@@ -416,7 +441,7 @@ def _gen_param_node(r):
     if n < 1 - 0.10 * _w(r):
         node["name"] = r.choice(PNAMES)
     elif n < 1 - 0.04 * _w(r):
-        node["name"] = r.choice([5, None, 0, [1], "", True, {"a": 1}])
+        node["name"] = r.choice([5, None, 0, [1], "", True, {"a": 1}, 1, False, [True], {"a": True}])
     if r.random() < 0.7:
         node["in"] = r.choice(["query", "path", "header", "cookie", 5, None])
     q = r.random()
@@ -531,6 +556,48 @@ def _gen_case(r) -> dict:
     case: dict = {"opId": r.choice(OPIDS[:-1]) if r.random() < 1 - 0.06 * w else "", "comps": comps}
     case["pathParams"] = [_gen_param(r, comps["parameters"]) for _ in range(r.choice([0, 0, 0, 1, 1, 2]))]
     case["params"] = [_gen_param(r, comps["parameters"]) for _ in range(r.choice([0, 1, 1, 2, 2, 3]))]
+    # an operation-level parameter that repeats a path-level one (same name, same `in`: OpenAPI's override) - as a copy with
+    # another schema / `required`, with the default location spelled out on one side only, through a component, or with a key
+    # that is only `==` (True / 1) - and near misses (same name in another location)
+    if case["pathParams"] and r.random() < 0.45:
+        cp_tbl = dict((k_, v_) for k_, v_ in comps["parameters"])
+        src = r.choice(case["pathParams"])
+        tgt = _resolve_param_spec(src, cp_tbl)
+        if isinstance(tgt, dict) and "name" in tgt:
+            over = _gen_param_node(r)
+            over["name"] = copy.deepcopy(tgt["name"])
+            m = r.random()
+            if m < 0.55:
+                if "in" in tgt:
+                    over["in"] = copy.deepcopy(tgt["in"])
+                else:
+                    over.pop("in", None)
+            elif m < 0.7:
+                # the same location, written on one side only
+                if tgt.get("in", "query") == "query":
+                    if "in" in tgt:
+                        over.pop("in", None)
+                    else:
+                        over["in"] = "query"
+                else:
+                    over["in"] = copy.deepcopy(tgt["in"])
+            elif m < 0.8:
+                eqv = {True: 1, 1: True, 0: False, False: 0}
+                nm = tgt["name"]
+                if isinstance(nm, (bool, int)) and nm in eqv:
+                    over["name"] = eqv[nm]
+                elif isinstance(nm, list) and nm == [1]:
+                    over["name"] = [True]
+                if "in" in tgt:
+                    over["in"] = copy.deepcopy(tgt["in"])
+                else:
+                    over.pop("in", None)
+            # else: near miss - whatever `in` the fresh node drew
+            if r.random() < 0.15 and isinstance(src, dict) and "$ref" in src:
+                over = copy.deepcopy(src)          # the very same reference at both levels
+            case["params"].insert(r.randrange(len(case["params"]) + 1), over)
+            if r.random() < 0.15:
+                case["params"].append(copy.deepcopy(over))       # and twice in the operation-level list (not allowed by OpenAPI)
     # request body
     k = r.random()
     if k < 0.45:
@@ -599,6 +666,8 @@ def _features(case: dict, res: dict) -> list:
             f.append("param:enumArray-nameless")
     if case["pathParams"]:
         f.append("path-level-params")
+        if len(res["params"]) < len(case["pathParams"]) + len(case["params"]):
+            f.append("path-level-param-overridden")
     if res["body"] is not None:
         f.append("body")
         if any(c[1][0] is not None for c in res["body"]["content"]):
@@ -723,12 +792,23 @@ def _check_case(case: dict, table: dict) -> list:
             any(getattr(s, "format", None) == "binary" for s in r_.content.values())
         if bool(r_.stream) != exp:
             fails.append({"class": "LOADER-STREAM-FLAG", "case": case, "observed": [r_.status_code, r_.stream], "expected": exp})
-    # 5
+    # 5: OpenAPI 3 "Path Item Object / parameters": the operation-level parameter OVERRIDES the path-level one with the same
+    #    name and location; nothing else is merged or dropped, the order of each list is kept (path-level ones first)
     cp = dict((k, v) for k, v in case["comps"]["parameters"])
-    exp_names = [_resolve_param_spec(p, cp)["name"] for p in case["pathParams"] + case["params"]]
-    got_names = [p.name for p in op.parameters]
-    if got_names != exp_names:
-        fails.append({"class": "LOADER-PARAM-ORDER-COUNT", "case": case, "observed": enc(got_names), "expected": enc(exp_names)})
+
+    def key(p):
+        n_ = _resolve_param_spec(p, cp)
+        return (n_["name"], n_.get("in", "query"))
+    own_keys = [key(p) for p in case["params"]]
+    exp_keys = [k_ for k_ in (key(p) for p in case["pathParams"]) if k_ not in own_keys] + own_keys
+    got_keys = [(p.name, p.param_in) for p in op.parameters]
+    if got_keys != exp_keys:
+        fails.append({"class": "LOADER-PARAM-ORDER-COUNT", "case": case, "observed": enc(got_keys), "expected": enc(exp_keys)})
+    # 5b: no (name, in) twice in the parsed list when neither declared list has one twice (C01/C20: no duplicate argument)
+    def distinct(ks):
+        return all(ks[a] != ks[b] for a in range(len(ks)) for b in range(a + 1, len(ks)))
+    if distinct([key(p) for p in case["pathParams"]]) and distinct(own_keys) and not distinct(got_keys):
+        fails.append({"class": "LOADER-PARAM-DUPLICATE-KEY", "case": case, "observed": enc(got_keys), "expected": "pairwise different (name, in)"})
     # 3 (permutation): reverse every content mapping of the document
     rev = _reverse_contents(case)
     if rev is not None:
